@@ -11,7 +11,7 @@ ID = "C08"
 LEVEL = "exploration"
 RULE = (
     "every abstract atom table within d deviations of a base table (2 chains x 2 residues x 3 atoms, one model); deviations: second/third model "
-    "sharing all residue identities (far apart / within 0.3 A of model 1), negative residue number, insertion code, two residues differing only by "
+    "sharing all residue identities (far apart / within 0.3 A of model 1), negative / four-character residue numbers, coordinates filling the 8-character PDB fields, insertion code, two residues differing only by "
     "insertion code, altloc A/B with occupancies (0.6,0.4),(0.4,0.6),(0.5,0.5), repeated atom name, two atoms 0.3 A apart with ordered/equal "
     "occupancies, a chain of three such atoms, HETATM group, 4-character/primed names, absent occupancy, label ids different from auth ids, both "
     "mmCIF null markers; each table emitted as PDB and mmCIF by an independent emitter and read with read_3d_structure(model=m) for m in {None} + "
@@ -139,8 +139,16 @@ def d_noocc(t):
     t[4]["occ"] = None
 
 
+def d_wide_coords(t):
+    for a in t:
+        a["x"] = "%.3f" % (float(a["x"]) - 300.0)
+        a["y"] = "%.3f" % (float(a["y"]) + 1200.0)
+        a["z"] = "%.3f" % (float(a["z"]) - 100.5)
+
+
 def deviations():
     d = [d_model(True), d_model(False), d_model(True, 3), d_res(0, "resseq", -3, "negative-number"), d_res(3, "icode", "B", "icode"), d_icode_pair]
+    d += [d_res(6, "resseq", 1234, "four-digit-number"), d_res(9, "resseq", -250, "negative-three-digit-number"), d_wide_coords]
     d += [d_altloc("0.60", "0.40"), d_altloc("0.40", "0.60"), d_altloc("0.50", "0.50")]
     d += [d_repeat("1.00", "0.50"), d_repeat("0.50", "1.00")]
     d += [d_close("1.00", "0.50"), d_close("0.50", "1.00"), d_close("0.50", "0.50"), d_close("0.50", "1.00", False), d_close("1.00", "1.00", False)]
